@@ -12,7 +12,8 @@ oracle: no Lean.  Per get_template call: freshness under C14's rule w.r.t. the f
         performed its first action; only documented exceptions; per scenario: (kind, version) results
         linearisable against a sequential reference lookup; first requests compile once / same object; no thread
         blocked at the end (deadlock / time-out / stray thread); mutex acquire/release pairing; LRU bound whenever
-        no thread is inside an LRU write; render output = the output of the same render run alone.  The same
+        no thread is inside an LRU write; render output = the output of the same render run alone; adjust_uri /
+        renders with <%include> raise nothing (bounded lookup: finding F-C16-2).  The same
         oracle runs on PCT-style random priority schedules with a scheduling point at every executed line of
         mako code and every template-level call (depth 3 = preemption bound 2).
 """
@@ -29,9 +30,11 @@ from harness.common import ddmin
 
 RULE = ("scenarios = 2-3 thread programs over {get same/different URI, tick + modify + get, failing compile, "
         "file appearing in an earlier directory, filesystem_checks off, LRU collection_size 1-2, render with "
-        "distinct contexts (cached def => first use of Template.cache)} x every schedule at the model's scheduling "
+        "distinct contexts (cached def => first use of Template.cache), adjust_uri on a plain / bounded lookup, "
+        "renders with <%include> on a bounded lookup (oracle only)} x every schedule at the model's scheduling "
         "points (collection read/write/pop, os.stat, os.path.isfile, mutex acquire/release, Template construction, "
-        "LRU len/del, memoized_property miss), enumerated in order of increasing preemption count; plus PCT "
+        "LRU len/del, memoized_property miss, _uri_cache test/read/store), enumerated in order of increasing "
+        "preemption count until the tier's time share of the scenario is used up; plus PCT "
         "random-priority schedules (depth 3) with a point at every executed line of mako code; a schedule is "
         "non-trivial when it contains at least one preemption; distinct = distinct (scenario, executed schedule)")
 ASSUMPTIONS = [
@@ -186,6 +189,7 @@ class Runner:
         world.constructions = 0
         world.construction_log = []
         world.lru_inside = 0
+        world.lru_del_keyerrors = 0
         world.memo_inits = {}
         state = {}            # (d, u) -> [ver, mtime, good]
         history = {}          # (d, u) -> {ver: good}
@@ -333,6 +337,7 @@ class Runner:
         o.finished = [sch.workers[t].finished and not (sch.deadlock or sch.timed_out or sch.step_limit_hit)
                       for t in sorted(sch.workers)]
         o.constructions = world.constructions
+        o.lru_del_keyerrors = world.lru_del_keyerrors
         o.memo_double = sorted({name for (_, name), n in world.memo_inits.items() if n > 1})
         o.lock_log = list(lookup._mutex.log)
         o.lock_owner = lookup._mutex.owner
@@ -525,8 +530,8 @@ def oracle(ctx, sc, o, stream):
     """returns a list of (site, detail)"""
     bad = []
     if o.deadlock:
-        bad.append(("deadlock", "all unfinished threads blocked on the lookup mutex: %r (owner %r)"
-                    % (o.sch.blocked_at_end, o.lock_owner)))
+        bad.append(("deadlock", "all unfinished threads blocked on the lookup mutex: %r (held by thread %r)"
+                    % (o.sch.blocked_at_end, o.sch.lock_owners_at_deadlock)))
     if o.timed_out:
         bad.append(("timeout", "wall-clock bound exceeded"))
     if o.sch.step_limit_hit:
@@ -697,6 +702,8 @@ def explore_scenario(ctx, runner, sc, budget, deadline, seen_sites):
         for a in o.adjusts:
             ctx.branch("adjust:" + a["out"][0])
         ctx.branch("constructions:%s:%d" % (sc["name"], o.constructions))
+        if o.lru_del_keyerrors:
+            ctx.branch("lru-manage-size-keyerror-tolerated")
         if o.memo_double:
             ctx.branch("memo-cell-initialised-twice:" + ",".join(sorted(o.memo_double)))
         pending.append((sc, o))
@@ -754,12 +761,37 @@ def pct_stream(ctx, runner, scs, nruns, deadline, seen_sites):
     return done
 
 
+def corpus_stream(ctx, runner, seen_sites):
+    """minimised past failing schedules, replayed first (implementation oracle + model on the same schedule)"""
+    import glob
+    import json
+    d = os.path.join(os.path.dirname(os.path.dirname(os.path.dirname(os.path.abspath(__file__)))), "corpus", "C16")
+    st = ctx.stream("corr.corpus", "corr", exhaustive=True)
+    pending = []
+    for path in sorted(glob.glob(os.path.join(d, "*.json"))):
+        c = json.load(open(path))
+        sc = c["sc"]
+        o = runner.run(sc, S.Follow(c["schedule"]))
+        st["cases"] += 1
+        ctx.count("oracle.sched", 1, "oracle")
+        pending.append((sc, o))
+        sites = oracle(ctx, sc, o, "oracle.sched")
+        ctx.branch("corpus:%s:%s" % (os.path.basename(path)[:-5], ",".join(s_ for s_, _ in sites) or "holds"))
+        for site, detail in sites:
+            if (sc["name"], site) in seen_sites:
+                continue
+            seen_sites.add((sc["name"], site))
+            ctx.violation(site, case_of(sc, o), detail, "oracle.sched")
+    check_model(ctx, "corr.corpus", pending)
+
+
 def run(ctx):
     runner = Runner(ctx)
     seen_sites = set()
     try:
+        corpus_stream(ctx, runner, seen_sites)
         scs = scenarios(ctx.tier) + include_scenarios(ctx.tier)
-        t_end = time.time() + (30 if ctx.quick else 400)
+        t_end = time.time() + (30 if ctx.quick else 330)
         total = 0
         per = 700 if ctx.quick else 60000
         try:
@@ -774,7 +806,7 @@ def run(ctx):
             pct_scs = [s for s in scs if s["name"] in ("first2", "modify-get", "reload2", "fail-fix", "render2-first",
                                                          "diff3-lru1", "twodirs", "first3", "render-modify",
                                                          "include-lru1", "adjust-lru2")]
-            n = pct_stream(ctx, runner, pct_scs, 40 if ctx.quick else 4000, time.time() + (8 if ctx.quick else 150),
+            n = pct_stream(ctx, runner, pct_scs, 40 if ctx.quick else 4000, time.time() + (8 if ctx.quick else 110),
                            seen_sites)
             ctx.log("pct line-level runs: %d" % n)
         ctx.sample({"scenario": "modify-get", "note": "see branches get-path:* for the paths of get_template reached"})
